@@ -138,6 +138,12 @@ impl StringNumber {
             } else {
                 self.scale -= n_scale as usize;
                 self.point = -1;
+                if n_scale > 0 {
+                    // a fraction became an integer: zeros of its integer part
+                    // ("0.5" in "0.5千") are not leading zeros of a plain digit string
+                    let n_lead = self.significand.chars().take_while(|c| *c == '0').count();
+                    self.significand.drain(..n_lead);
+                }
             }
         }
     }
